@@ -1160,12 +1160,15 @@ def wallet_secrets(mat):
         name = 'master%d' % si
         out.append(Secret.from_xkey(name, x))
         if ms:
-            paths = [[48 | H], [48 | H, c], [48 | H, c, H], [48 | H, c, H, 2 | H], [48 | H, c, H, 1 | H], [45 | H]]
-            base = [[48 | H, c, H, 2 | H]]
+            paths = [[48 | H], [48 | H, c], [45 | H]]
+            base = []
+            for a in range(5):
+                paths += [[48 | H, c, a | H], [48 | H, c, a | H, 2 | H], [48 | H, c, a | H, 1 | H]]
+                base += [[48 | H, c, a | H, 2 | H]]
         else:
             purpose = {'legacy': 44, 'p2sh-segwit': 49, 'segwit': 84}[wt] | H
-            paths = [[purpose], [purpose, c], [purpose, c, H], [purpose, c, 1 | H], [purpose, c, 2 | H]]
-            base = [[purpose, c, H], [purpose, c, 1 | H], [purpose, c, 2 | H]]
+            paths = [[purpose], [purpose, c]] + [[purpose, c, a | H] for a in range(5)]
+            base = [[purpose, c, a | H] for a in range(5)]
         for b in base:
             for ch in (0, 1):
                 paths.append(b + [ch])
@@ -1240,8 +1243,7 @@ def digest_wallet(root, extra):
 # ===================================================================================== sub-space: Wallet
 W_EVENTS = ['main_key_private', 'as_dict_priv', 'keys', 'new_key', 'public_master', 'key_objects', 'transactions']
 W_EVENTS_NET = ['send']
-W_EVENTS_T = ['info', 'repr_str', 'wif_private', 'as_dict', 'public_master_private', 'get_key', 'as_json_priv',
-              'new_account', 'import_key']
+W_EVENTS_T = ['info', 'wif_private', 'as_dict', 'public_master_private', 'new_account', 'import_key']
 W_EVENTS_T_NET = ['utxos_update']
 
 
@@ -1333,7 +1335,7 @@ def w_views():
         ('Wallet.as_dict', lambda b: b.w.as_dict()),
         ('Wallet.as_json', lambda b: b.w.as_json()),
         ('Wallet.info', lambda b: printed(b.w.info)),
-        ('Wallet.info(detail=5)', lambda b: printed(lambda: b.w.info(detail=5))),       # thorough tier only
+        ('Wallet.info(detail=5)', lambda b: printed(lambda: b.w.info(detail=5))),       # extended alphabet only
         ('Wallet.keys(as_dict)', lambda b: (b.w.keys(as_dict=True), b.w.keys_addresses(as_dict=True),
                                             b.w.keys_networks(as_dict=True), b.w.keys_accounts(as_dict=True),
                                             b.w.keys_address_payment(as_dict=True),
@@ -1383,7 +1385,7 @@ def sub_wallet(case):
         control(acc, nd, 'database_file_plaintext', open(box.db, 'rb').read(), ['raw', 'xprv'])
         box._c16_dispose()
     views = w_views()
-    if cfg.get('quick'):
+    if not cfg.get('full'):
         views = [v for v in views if v[0] != 'Wallet.info(detail=5)']
     s0, replays = explore_state(acc, nd, mat['kind'], hist, make, views, lambda b: b.state())
     return acc.result({'state': s0, 'enabled': w_alphabet(mat, cfg.get('full'))})
